@@ -43,7 +43,7 @@ CHECKS = {
             "regex engine is an environment stub in the symbolic part (contract: match starts at the requested column, non-empty); stub spaces may not exhaust in quick (reported)",
             "DESIGN.md 3/C04"),
     "C01": ("XH", "CrossHair-driven exhaustive enumeration (z3 choice variables) of grammar-family holes; real parser on ALL token strings up to the length bound, independent derivation checker",
-            "bounded exhaustive exploration with exhaustion certificate: every instantiation of 25 shape families (alternatives as written and reversed) x both smart_factorization settings x all token strings of length <= 4 (quick) / 6 (thorough)",
+            "bounded exhaustive exploration with exhaustion certificate: every instantiation of 26 shape families (alternatives as written and reversed) x both smart_factorization settings x all token strings of length <= 4 (quick) / 6 (thorough); every skip_tokens choice x all texts of <= 6 (7) symbols",
             "structural property: the solver enumerates; step budget per parse; real tokenizer with synonym and keyword terminals", "DESIGN.md 3/C01"),
     "C02": ("XH", "as C01, with independent FIRST/FOLLOW/predict and fixpoint recogniser as oracles",
             "bounded exhaustive exploration: for every family grammar that is LL(1) as written or whose table the parser reports conflict-free, acceptance == sentence-hood for all strings up to the bound, "
